@@ -207,6 +207,29 @@ def body_closure(i1: int, i2: int, li: int) -> bool:
     return True
 
 
+def body_virtual(sel: str, ni: int, maildir: bool) -> bool:
+    """Mailbox folders advertise message selectors `folder|/MBOX-MESSAGE/<n>`: for any folder selector a
+    folder handler can accept (no '?' or '|'), the message handler parses it back to the same folder
+    and the same message number."""
+    from pygopherd.handlers import mbox
+
+    n = [1, 2, 9, 10, 99, 100][ni]
+    if "?" in sel or "|" in sel:
+        return True
+    cfg = hx.DictConfig(True)
+    folder = (mbox.MaildirFolderHandler if maildir else mbox.MBoxFolderHandler)
+    msg = (mbox.MaildirMessageHandler if maildir else mbox.MBoxMessageHandler)
+    vfs = hx.ns(stat=lambda s: (0o100644, 0, 0, 1, 0, 0, 1, 0, 0, 0), isreal=lambda: True)
+    f = folder(sel, "", None, cfg, None, vfs)
+    adv = f.genargsselector(f.getargflag() + str(n))
+    m = msg(adv, "", None, cfg, None, vfs)
+    ok = m.canhandlerequest()
+    hx.reach()
+    hx.require(m.getselector() == sel, "C05:message-selector-points-to-another-folder", lambda: "folder=%r advertised=%r parsed folder=%r" % (sel, adv, m.getselector()))
+    hx.require(bool(ok) and m.message_num == n, "C05:message-selector-not-accepted", lambda: "folder=%r advertised=%r accepted=%s" % (sel, adv, ok))
+    return True
+
+
 def obligations(tier, seed):
     n = 2 if tier == "quick" else 3
     obs = [
@@ -227,6 +250,10 @@ def obligations(tier, seed):
                                "(one decoding, surrogateescape on both sides, WAP prefix / Gemini query prefix / '?' splitting handled consistently)" % (dl.PROTO_NAMES[kind], TYPES[t]),
                           bounds="selector = '/d/' + tail, |tail| <= %d over {a SPACE %% ? # | \" U+DCFF}; name |n| <= 1; with/without search" % n,
                           functions=["protocols.*.renderobjinfo/getrenderstr", "protocols.*.__init__/canhandlerequest/handle", "ProtocolMultiplexer.getProtocol"]))
+    obs.append(Ob(id="C05.5-virtual-items", body="harness.C05:body_virtual", sig="sel: str, ni: int, maildir: bool", pre=["1 <= len(sel) <= %d" % (3 if tier == "quick" else 4), "0 <= ni <= 5", "sel[0] == '/'"],
+                  timeout=300, desc="message selectors advertised by a mailbox/Maildir folder listing parse back (Virtual + MessageHandler) to the same folder and message number",
+                  bounds="folder selector |s| <= %d (all characters except ? and |), message numbers {1,2,9,10,99,100}" % (3 if tier == "quick" else 4),
+                  functions=["handlers.virtual.Virtual.__init__/genargsselector", "handlers.mbox.MessageHandler.canhandlerequest"]))
     for li in range(len(LISTINGS)):
         obs.append(Ob(id="C05.6-closure[%s]" % LISTINGS[li], body="harness.C05:body_closure", sig="i1: int, i2: int, li: int",
                       pre=["li == %d" % li, "0 <= i1 < %d" % len(CNAMES), "0 <= i2 < %d" % len(CNAMES)] , timeout=400 if tier == "quick" else 1800,
